@@ -572,7 +572,7 @@ def explore(ctx, env, nprog):
                 return
 
 
-def run(ctx):
+def _run_workload(ctx):
     env = Env(ctx)
     try:
         # patch: contention counter through the scheduler
@@ -626,3 +626,11 @@ LEVEL_TEXT = ('Runtime monitoring of the real store code: an instrumented lock s
 LEVEL_NOTE = ('Trusted: sys.monitoring line events as the pre-emption granularity, the harness lock stand-in, networkx '
               'containers. Not covered: switches inside networkx calls, more than 3 threads, wall-clock behaviour.')
 TECHNIQUE = 'instrumented lock + per-call balance monitor, failpoint enumeration, cooperative-scheduler interleaving exploration'
+
+
+def run(ctx):
+    _run_workload(ctx)
+    # thorough tier: the repository's own tests replayed under the monitors (one shard does it)
+    if not ctx.quick and ctx.shard == 0:
+        from vlib import pytest_monitors
+        pytest_monitors.run_under_monitors(ctx, 'C20/')
